@@ -3,6 +3,7 @@ package core
 import (
 	"fmt"
 	"sync"
+	"sync/atomic"
 	"testing"
 	"time"
 
@@ -138,6 +139,231 @@ func TestC02CloseVsCalls(t *testing.T) {
 		rec.Case(fmt.Sprintf("%d|%d|%d|%v|%v|%v", budget, workers, nops, head, kill, pushes), budget != 0 && overlapped > 0, fmt.Sprintf("budget=%d", budget), fmt.Sprintf("kill=%v", kill))
 		if rec.WantSample() && budget != 0 && overlapped > 0 {
 			rec.Sample(map[string]interface{}{"budget": budget, "workers": workers, "ops": nops, "head": head.String(), "kill": kill, "overlapping_ops": overlapped})
+		}
+	})
+}
+
+// TestC02RevivedSession: a redial-enabled client session that ENDED once (its redial budget was
+// exhausted while the server was away: the close notification fired) and is used again after the
+// server came back. Whatever such a session does with the later calls (fail them, or come back to
+// life), every command issued on it completes exactly once - also the ones that are awaiting
+// their reply when the connection is lost (again).
+func TestC02RevivedSession(t *testing.T) {
+	rec := vt.NewRec(t, "C02", "revived-session", "a client session dialled over loopback TCP with redial budget 1-3 (interval 2 ms) to a harness-owned listener in front of a serving peer; optionally a call before anything happens; the server goes away until the session's close notification has fired (budget exhausted), comes back, then 1-3 generated operations (Call / AsyncCall / Push) are issued on the same Session value, then 1-4 AsyncCalls with gated handlers (own completion channel each, or one shared channel with room for all) are issued and, once their handlers run (or they have failed), the connection is killed or the server goes away again, the gates open before or after that; oracle: every Call / Push returns, every AsyncCall returns a command whose done signal fires and which is delivered exactly once to its completion channel (counted at quiescence), OK only with its own result, all within the liveness bound; a final Close returns; non-trivial = a later operation completed OK (the session came back) and at least one gated call was awaiting its reply at the loss; distinct by case")
+	rapid.Check(t, func(t *rapid.T) {
+		vt.Init()
+		budget := rapid.IntRange(1, 3).Draw(t, "budget")
+		warm := rapid.Bool().Draw(t, "warm")
+		nrev := rapid.IntRange(1, 3).Draw(t, "nrevive")
+		revOps := make([]string, nrev)
+		for i := range revOps {
+			revOps[i] = rapid.SampledFrom([]string{"call", "async", "push"}).Draw(t, "reviveop")
+		}
+		npend := rapid.IntRange(1, 4).Draw(t, "npending")
+		shared := rapid.Bool().Draw(t, "sharedchan")
+		fault := rapid.SampledFrom([]string{"kill", "kill", "down"}).Draw(t, "fault")
+		releaseFirst := rapid.IntRange(0, 3).Draw(t, "releasefirst") == 0
+		lib := newLib()
+		w := vt.NewWorld()
+		defer w.Close()
+		srv := w.Peer(erpc.PeerConfig{})
+		callRoute, pushRoute := registerLib(srv)
+		ts := &tcpServer{peer: srv}
+		if err := ts.listen(); err != nil {
+			t.Skip("harness: no listener")
+		}
+		defer ts.down()
+		dials := &dialRecorder{}
+		cli := w.Peer(erpc.PeerConfig{RedialTimes: int32(budget), RedialInterval: 2 * time.Millisecond, DialTimeout: 2 * time.Second}, dials)
+		sess, stat := cli.Dial(ts.addr)
+		if !stat.OK() {
+			t.Skip("harness: dial failed")
+		}
+		canon := fmt.Sprintf("%d|%v|%v|%d|%v|%s|%v", budget, warm, revOps, npend, shared, fault, releaseFirst)
+		hist := fmt.Sprintf("budget %d, ended once (server away until the close notification fired), server back, later ops %v", budget, revOps)
+		// one synchronous call, bounded
+		call := func(rid, what string) erpc.CallCmd {
+			var res LibRes
+			var cmd erpc.CallCmd
+			if !vt.Returns(func() { cmd = sess.Call(callRoute, &LibArg{Rid: rid, Act: "ret", Val: rid}, &res) }) {
+				t.Fatalf("C02 violated: %s", vt.Hang("return of Call "+what+" ("+hist+")"))
+			}
+			select {
+			case <-cmd.Done():
+			default:
+				t.Fatalf("C02 violated: Call %s returned but its done signal has not fired (%s)", what, hist)
+			}
+			if cmd.StatusOK() && res.Val != rid {
+				t.Fatalf("C02 violated: Call %s completed OK with %+v, want Val=%q", what, res, rid)
+			}
+			return cmd
+		}
+		if warm {
+			if cmd := call("warm", "on the fresh session"); !cmd.StatusOK() {
+				t.Fatalf("harness: the call on the fresh session failed: %v", cmd.Status())
+			}
+		}
+		// the session ends: the server is away for longer than the budget bridges
+		ts.down()
+		vt.WaitUntil(func() bool {
+			select {
+			case <-sess.CloseNotify():
+				return true
+			default:
+			}
+			return atomic.LoadInt32(&dials.redials) > 0
+		})
+		if atomic.LoadInt32(&dials.redials) > 0 {
+			t.Skip("harness: a redial was accepted while the listener was closed: its port has been given to another process")
+		}
+		if !vt.WaitClosed(sess.CloseNotify()) {
+			t.Fatalf("harness: %s", vt.Hang(fmt.Sprintf("close notification of a session with redial budget %d whose server went away for good", budget)))
+		}
+		if err := ts.listen(); err != nil {
+			t.Skip("harness: cannot re-listen")
+		}
+		// later operations on the ended session: each completes exactly once
+		revived := false
+		for i, op := range revOps {
+			rid := fmt.Sprintf("rev%d", i)
+			switch op {
+			case "call":
+				if call(rid, "on the ended session after the server came back").StatusOK() {
+					revived = true
+				}
+			case "push":
+				var st *erpc.Status
+				if !vt.Returns(func() { st = sess.Push(pushRoute, &LibArg{Rid: rid}) }) {
+					t.Fatalf("C02 violated: %s", vt.Hang("return of Push on the ended session after the server came back ("+hist+")"))
+				}
+				if st.OK() {
+					revived = true
+				}
+			case "async":
+				ch := make(chan erpc.CallCmd, 2)
+				res := new(LibRes)
+				var cmd erpc.CallCmd
+				if !vt.Returns(func() { cmd = sess.AsyncCall(callRoute, &LibArg{Rid: rid, Act: "ret", Val: rid}, res, ch) }) {
+					t.Fatalf("C02 violated: %s", vt.Hang("return of AsyncCall on the ended session after the server came back ("+hist+")"))
+				}
+				if !vt.WaitClosed(cmd.Done()) {
+					t.Fatalf("C02 violated: %s", vt.Hang("done signal of an AsyncCall on the ended session after the server came back ("+hist+")"))
+				}
+				if cmd.StatusOK() {
+					revived = true
+					if res.Val != rid {
+						t.Fatalf("C02 violated: AsyncCall %s completed OK with %+v", rid, *res)
+					}
+				}
+				time.Sleep(200 * time.Microsecond)
+				if n := len(ch); n != 1 {
+					t.Fatalf("C02 violated: an AsyncCall on the ended session (%s) was delivered %d times to its completion channel", hist, n)
+				}
+			}
+		}
+		// pending calls on whatever the session is now, then a loss
+		type pend struct {
+			cmd     erpc.CallCmd
+			res     *LibRes
+			rid     string
+			ch      chan erpc.CallCmd
+			entered <-chan struct{}
+			release func()
+			waiting bool // its handler was running when the fault was injected
+		}
+		var sharedCh chan erpc.CallCmd
+		if shared {
+			sharedCh = make(chan erpc.CallCmd, 2*npend)
+		}
+		pends := make([]*pend, npend)
+		defer func() {
+			for _, p := range pends {
+				if p != nil {
+					p.release()
+				}
+			}
+		}()
+		for i := range pends {
+			p := &pend{rid: fmt.Sprintf("pend%d", i), res: new(LibRes), ch: sharedCh}
+			if p.ch == nil {
+				p.ch = make(chan erpc.CallCmd, 2)
+			}
+			p.entered, p.release = lib.Gate(p.rid)
+			pends[i] = p
+			if !vt.Returns(func() { p.cmd = sess.AsyncCall(callRoute, &LibArg{Rid: p.rid, Act: "slow", Val: p.rid}, p.res, p.ch) }) {
+				t.Fatalf("C02 violated: %s", vt.Hang("return of AsyncCall (gated handler) on the session ("+hist+")"))
+			}
+		}
+		nwaiting := 0
+		for _, p := range pends {
+			tm := time.NewTimer(vt.LivenessBound)
+			select {
+			case <-p.entered:
+				p.waiting = true
+				nwaiting++
+			case <-p.cmd.Done():
+			case <-tm.C:
+				t.Fatalf("C02 violated: %s", vt.Hang("entry of the handler of call "+p.rid+" or its completion ("+hist+")"))
+			}
+			tm.Stop()
+		}
+		if releaseFirst {
+			for _, p := range pends {
+				p.release()
+			}
+		}
+		if fault == "down" {
+			ts.down()
+		} else {
+			ts.kill()
+		}
+		for _, p := range pends {
+			p.release()
+		}
+		for _, p := range pends {
+			if !vt.WaitClosed(p.cmd.Done()) {
+				t.Fatalf("C02 violated: %s", vt.Hang(fmt.Sprintf("done signal of call %s that was awaiting its reply (handler running: %v) when the connection was lost (%s) on a session with this history: %s, came back: %v", p.rid, p.waiting, fault, hist, revived)))
+			}
+			if p.cmd.StatusOK() && p.res.Val != p.rid {
+				t.Fatalf("C02 violated: call %s completed OK with %+v", p.rid, *p.res)
+			}
+		}
+		// exactly one delivery each, counted at quiescence
+		time.Sleep(300 * time.Microsecond)
+		count := map[erpc.CallCmd]int{}
+		drain := func(ch chan erpc.CallCmd) {
+			for {
+				select {
+				case c := <-ch:
+					count[c]++
+					continue
+				default:
+				}
+				return
+			}
+		}
+		if shared {
+			drain(sharedCh)
+		} else {
+			for _, p := range pends {
+				drain(p.ch)
+			}
+		}
+		for _, p := range pends {
+			if count[p.cmd] != 1 {
+				t.Fatalf("C02 violated: call %s (done, status %v) was delivered %d times to its completion channel (%s, loss: %s)", p.rid, p.cmd.Status(), count[p.cmd], hist, fault)
+			}
+		}
+		if len(count) != npend {
+			t.Fatalf("C02 violated: the completion channels delivered %d distinct commands, %d were issued", len(count), npend)
+		}
+		if !vt.Returns(func() { sess.Close() }) {
+			t.Fatalf("C02 violated: %s", vt.Hang("return of Close at the end ("+hist+", then "+fmt.Sprint(npend)+" pending calls and a loss: "+fault+")"))
+		}
+		nt := revived && nwaiting > 0
+		rec.Case(canon, nt, fmt.Sprintf("budget=%d", budget), "fault="+fault, fmt.Sprintf("came-back=%v", revived), fmt.Sprintf("awaiting-reply-at-loss=%d", nwaiting))
+		if rec.WantSample() && nt {
+			rec.Sample(map[string]interface{}{"budget": budget, "later_ops": revOps, "pending": npend, "awaiting_reply_at_loss": nwaiting, "shared_channel": shared, "fault": fault, "gates_open_before_loss": releaseFirst})
 		}
 	})
 }
